@@ -93,6 +93,8 @@ def run(tier: str) -> int:
             {"Family": "names", "MaxLen": 3, "Starts": "zero", "Sample": 400, "workers": 2},
             {"Family": "trivfx", "MaxLen": 4, "Starts": "zero", "Sample": 300, "workers": 3},
             {"Family": "ci", "MaxLen": 3, "Starts": "zero", "Sample": 150, "workers": 3},
+            {"Family": "bounds", "MaxLen": 3, "Starts": "zero", "Sample": 250, "workers": 3},
+            {"Family": "stacke", "MaxLen": 3, "Starts": "zero", "Sample": 400, "workers": 3},
             {"Family": "optsk", "MaxLen": 3, "Starts": "all", "Sample": 200, "workers": 3, "style": "min"},
             {"Family": "optinl", "MaxLen": 3, "Starts": "zero", "Sample": 150, "workers": 3, "style": "min"},
             {"Family": "optsq", "MaxLen": 3, "Starts": "zero", "Sample": 150, "workers": 3, "style": "min"},
@@ -111,6 +113,8 @@ def run(tier: str) -> int:
             {"Family": "names", "MaxLen": 4, "Starts": "zero", "Sample": 0, "workers": 8},
             {"Family": "trivfx", "MaxLen": 4, "Starts": "all", "Sample": 0, "workers": 8},
             {"Family": "ci", "MaxLen": 3, "Starts": "zero", "Sample": 0, "workers": 8},
+            {"Family": "bounds", "MaxLen": 4, "Starts": "zero", "Sample": 0, "workers": 8},
+            {"Family": "stacke", "MaxLen": 4, "Starts": "all", "Sample": 0, "workers": 8},
             {"Family": "optsk", "MaxLen": 4, "Starts": "all", "Sample": 0, "workers": 8, "style": "min"},
             {"Family": "optinl", "MaxLen": 4, "Starts": "zero", "Sample": 0, "workers": 8, "style": "min"},
             {"Family": "optsq", "MaxLen": 3, "Starts": "zero", "Sample": 0, "workers": 8, "style": "min"},
